@@ -18,6 +18,7 @@ func AppendNode(n1, n2 parsley.Node) parsley.Node {
 	}
 	switch n := n1.(type) {
 	case NodeList:
+		n = n[:len(n):len(n)]
 		n.Append(n2)
 		return n
 	default:
